@@ -115,6 +115,7 @@ Plan parse_plan(const std::string &text) {
             p.rseed = kv.u64("rseed", 1);
             p.epoch = kv.u64("epoch", 1700000000ULL);
             p.outfault = atof(kv.str("outfault", "0").c_str());
+            p.tty = kv.u64("tty", 0);
             p.skew[0] = kv.i64("skew0"); p.skew[1] = kv.i64("skew1"); p.skew[2] = kv.i64("skew2");
             p.stdin_eof = kv.u64("eof", 0);
             p.o0 = (int)kv.u64("o0", 0);
@@ -544,6 +545,7 @@ void exec_plan(const std::string &text, bool verbose) {
     w.env_on = p.env_on;
     w.env_seed = p.rseed;
     w.stdout_fault_p = p.outfault;
+    w.tty = p.tty;
     w.can_txq_cap = p.cantxq;
     w.clock_gran = p.clkgran ? p.clkgran : 1;
     w.t_origin = p.epoch * 1000000000ULL + (p.rseed % 1000000007ULL) * 1000ULL;
@@ -565,6 +567,7 @@ void exec_plan(const std::string &text, bool verbose) {
 
     w.count(p.o0 == 2 ? "cfg.copy_gcc_O2" : p.o0 ? "cfg.copy_clang_O0_unsigned_char" : "cfg.copy_clang_O1");
     if (p.env_on) w.count("cfg.environment_variables_read_as_set");
+    if (p.tty) w.count("cfg.standard_streams_are_a_terminal");
     if (p.epoch != 1700000000ULL) w.count(p.epoch < 2147483648ULL ? "cfg.date_2038_rollover_inside_the_run" : p.epoch < 4294967000ULL ? "cfg.date_after_2038" : "cfg.date_around_2106");
     if (p.stackfill != 0xA5) { sim::Tasks::refill_stacks((uint8_t)p.stackfill); w.count("cfg.stack_fill_other_than_A5"); }
     setup_nodes(rs);
